@@ -158,7 +158,8 @@ def variant(draw, base_spec, all_specs) -> tuple[str, str]:
     kind = draw(st.sampled_from(["res", "res", "sustain", "content", "invalid_forced", "invalid_nores",
                                  "invalid_header", "invalid_dup_tempo", "invalid_midway", "invalid_midway",
                                  "song_dup", "song_dup", "song_perm", "same", "unrelated", "same_size", "same_size",
-                                 "twin_track", "twin_track", "twin_events"]))
+                                 "twin_track", "twin_track", "twin_events", "unknown_section", "unknown_section",
+                                 "fewer_sections", "other_headers"]))
     spec = copy.deepcopy(base_spec)
     if kind == "res":
         res = spec["res"]
@@ -197,6 +198,22 @@ def variant(draw, base_spec, all_specs) -> tuple[str, str]:
             spec["events"] = [e for e in spec["events"] if e[1] not in ("phrase_start", "solo")]
         else:
             spec["events"] = [[0, "phrase_start"], [0, "solo"]] + list(spec["events"])
+    elif kind == "unknown_section":
+        # the SET of section names differs from chart to chart: sections no parser knows come ...
+        name = draw(st.sampled_from(["PART VOCALS", "Lighting", "Foo", "ExpertVocals", "Events2", "song", "Venue"]))
+        body = draw(st.sampled_from([[], ["0 = E \"x\""], ["garbage"], ["0 = N 0 0", "5 = S 2 9"]]))
+        spec["raw_sections"] = [list(x) for x in spec.get("raw_sections", [])] + [[name, body]]
+        spec.pop("order", None)
+    elif kind == "fewer_sections":
+        # ... and go: nothing but the required sections and at most one track
+        spec["raw_sections"] = []
+        spec["tracks"] = dict(list(spec["tracks"].items())[:1])
+        spec.pop("order", None)
+    elif kind == "other_headers":
+        hs = [h for h in S.HEADER_LIST if h not in spec["tracks"]]
+        k = draw(st.integers(0, len(hs) - 1))
+        spec["tracks"] = {hs[(k + 7 * j) % len(hs)]: items for j, items in enumerate(spec["tracks"].values())}
+        spec.pop("order", None)
     elif kind == "same_size":
         # another chart whose text has exactly the same length (one lane digit changed)
         for h, items in spec["tracks"].items():
